@@ -89,7 +89,8 @@ def run(rep: vk.Report):
     def sources():
         for f in fixed:
             yield None, [f[0]], list(f[1])
-        for g, e in common.corpus(rng, rep.tier, 0, errors=errors):
+        # (row trees are compared EXACTLY: contexts whose constants do not multiply exactly in binary64 are left to C02)
+        for g, e in common.corpus(rng, rep.tier, 0, errors=errors, exclude=["tiny", "huge", "f-1(", "f+tiny"]):
             yield g, [e], None
         for i in range(n):
             g = gen.Gen(random.Random(rng.random()), profile=rng.choice(["poly", "smooth", "smooth", "all"]))
